@@ -677,6 +677,9 @@ class RecvOracle:
         self.highest = {}     # sid -> highest offset the peer sent (incl. final sizes)
         self.final = {}       # sid -> final size
         self.opened = {False: 0, True: 0}
+        self.touched = set()  # streams the peer opened / used with an accepted frame
+        self.bytes = {}       # sid -> offsets of the accepted stream data (small offsets only)
+        self.reset_seen = set()
 
     def on_auth(self, name, epoch, pn, frames):
         pass
@@ -707,18 +710,54 @@ class RecvOracle:
             init = self.tp["bidi_remote"]
         return max(init, self.msd.get(sid, 0))
 
-    def expect(self, kind, sid, off=0, length=0, fin=False, final_size=0):
+    def can_send_to_peer(self, sid):
+        """this endpoint can send on `sid` (so the peer may send STOP_SENDING / MAX_STREAM_DATA for it)"""
+        return self.local(sid) or not (sid & 2)
+
+    def recv_done(self, sid):
+        """the receive half is complete: RESET_STREAM accepted, or FIN known and every byte
+        below the final size sent (judged from the frames the peer sent, not from the endpoint)"""
+        if sid in self.reset_seen:
+            return True
+        fs = self.final.get(sid)
+        return fs is not None and fs <= 1 << 16 and len(self.bytes.get(sid, ())) >= fs
+
+    def _open(self, sid, e_opened):
+        """stream lookup common to every frame that names a stream id: codes or empty set"""
+        uni = bool(sid & 2)
+        if self.local(sid):
+            if not e_opened and sid not in self.highest and sid not in self.touched:
+                return {5}       # a stream only this endpoint may open, and it has not (RFC 9000 19.8 / 19.4 / 19.5 / 19.10 / 19.13)
+            return set()
+        if sid not in self.touched and sid // 4 + 1 > self.max_streams[uni]:
+            return {4}
+        return set()
+
+    def expect_id(self, kind, sid, e_opened=False):
+        """STOP_SENDING ('stop'), MAX_STREAM_DATA ('msd'), STREAM_DATA_BLOCKED ('sdb')"""
+        uni = bool(sid & 2)
+        if kind in ("stop", "msd") and not self.can_send_to_peer(sid):
+            return {5}
+        if kind == "sdb" and self.local(sid) and uni:
+            return {5}
+        codes = self._open(sid, e_opened)
+        if not codes:
+            self.touched.add(sid)
+        return codes
+
+    def expect(self, kind, sid, off=0, length=0, fin=False, final_size=0, e_opened=True):
         """classify a STREAM / RESET_STREAM frame sent by the peer; updates the
         tracker when the frame is within every limit.  Returns a set of codes."""
         codes = set()
         uni = bool(sid & 2)
+        end = final_size if kind == "reset" else off + length
+        if kind == "stream" and end > (1 << 62) - 1:
+            return {7}       # not representable as a stream offset (RFC 9000 19.8: FRAME_ENCODING_ERROR)
         if self.local(sid) and uni:
             return {5}       # peer cannot send on our unidirectional stream
-        end = final_size if kind == "reset" else off + length
-        if end > (1 << 62) - 1:
-            return {7}       # not representable as a stream offset (RFC 9000 19.8: FRAME_ENCODING_ERROR)
-        if not self.local(sid) and sid // 4 + 1 > self.max_streams[uni]:
-            codes.add(4)
+        codes |= self._open(sid, e_opened)
+        if codes == {5}:
+            return codes
         if end > self.stream_limit(sid):
             codes.add(3)
         newly = max(0, end - self.highest.get(sid, 0))
@@ -729,9 +768,14 @@ class RecvOracle:
             if end > fs or ((fin or kind == "reset") and end != fs):
                 codes.add(6)
         if not codes:
+            self.touched.add(sid)
             self.highest[sid] = max(self.highest.get(sid, 0), end)
+            if kind == "stream" and end <= 1 << 16:
+                self.bytes.setdefault(sid, set()).update(range(off, end))
             if fin or kind == "reset":
                 self.final[sid] = end
+            if kind == "reset":
+                self.reset_seen.add(sid)
         return codes
 
 
